@@ -63,3 +63,20 @@ Theorem metrics_noninterference rho (locf : N -> N) h :
   (forall loc, reported_loc locf (fst (run (map (rev rho) h))) loc = reported_loc locf (fst (run h)) loc).
 Proof. exact (fun Hinj => noninterference_lemma rho Hinj locf h). Qed.
 Print Assumptions metrics_noninterference.
+
+(* the strings the service layer hands to the metrics interface (where they become label values)
+   are the fixed vocabulary: the drain result of a probe is one of three words, and every
+   metrics call passes a status variable (whose values are the literal statuses of
+   Gen.Status.statuses, C15/C16), an access-key ID, counters and durations — never an error text
+   or an address (regenerated from service/tcp.go and service/udp.go on every run) *)
+From OSS Require Gen.Status.
+Theorem service_label_sources :
+  Gen.Status.drain_results = ["eof"; "timeout"; "other"]%string /\
+  Gen.Status.metric_call_args =
+    [("AddAuthenticated", "id"); ("AddCipherSearch", "err == nil | timeToCipher"); ("AddCipherSearch", "err == nil | timeToCipher");
+     ("AddCipherSearch", "keyErr == nil | timeToCipher"); ("AddClosed", "status | proxyMetrics | connDuration");
+     ("AddPacketFromClient", "status | int64(clientProxyBytes) | int64(proxyTargetBytes)");
+     ("AddPacketFromTarget", "status | int64(bodyLen) | int64(proxyClientBytes)");
+     ("AddProbe", "status | drainResult | proxyMetrics.ClientProxy"); ("AddUDPNatEntry", "clientAddr | keyID")]%string.
+Proof. split; reflexivity. Qed.
+Print Assumptions service_label_sources.
